@@ -72,6 +72,14 @@ uint64_t       nondet_u64 (void);
   unsigned char inw_##name[XV_WIN];                                         \
   XV_WINDOW (inw_##name, ptr, len)
 
+/* same, in an object of constant size `cap` (len < cap) */
+#define XV_IN_BYTES_FIXED(ptr, name, len, cap)                              \
+  XV_SMALL_LIMIT (len);                                                     \
+  unsigned char *ptr = malloc (cap);                                        \
+  XV_ASSUME (ptr != NULL);                                                  \
+  unsigned char inw_##name[XV_WIN];                                         \
+  XV_WINDOW (inw_##name, ptr, len)
+
 /* the only harness loop that needs XV_WIN unwindings lives in a macro with a
    recognisable loop variable so jobs can give it its own bound */
 #define XV_WINDOW(dst, src, len)                                            \
@@ -113,6 +121,11 @@ extern int xv_native_failures;
   xv_replay_bytes (#name, ptr, (size_t)(len) + (extra))
 
 #define XV_ANY_INDEX(k, name, n) XV_IN (size_t, name, nondet_size); size_t k = name; XV_ASSUME (k < (size_t)(n))
+
+#define XV_IN_BYTES_FIXED(ptr, name, len, cap)                              \
+  unsigned char *ptr = malloc ((size_t)(cap) + 1);                          \
+  memset (ptr, 'A', (size_t)(cap));                                         \
+  xv_replay_bytes (#name, ptr, (size_t)(cap))
 
 #define XV_HAVOC_OBJ(p) ((void)0)
 #define XV_HAVOC_SLICE(p, n) ((void)0)
